@@ -134,8 +134,9 @@ static int mode_solve(int cases)
         if (kv["geometry"] == "2") set("delta_e", 1.4); else set("delta_e", 0.2);
         set("problem", rng.range(0, 2)); set("alpha_coeff", rng.range(0, 3)); set("beta_coeff", rng.range(0, 1)); set("alpha_jump", 0.7081 * 1.3);
         set("DirBC_Interior", rng.range(0, 1)); set("stencilDistributionMethod", rng.range(0, 1)); set("extrapolation", rng.pick(std::vector<int>{0, 1, 3}));
-        set("FMG", rng.range(0, 1)); set("multigridCycle", rng.range(0, 2)); set("maxIterations", 8); set("absoluteTolerance", -1); set("relativeTolerance", -1);
-        set("threadReductionFactor", rng.pick(std::vector<double>{1.0, 0.5}));
+        set("FMG", rng.range(0, 1)); set("multigridCycle", rng.range(0, 2)); set("maxIterations", 2); set("absoluteTolerance", -1); set("relativeTolerance", -1);
+        // the share of threads per level must not change WHAT is computed (hierarchy depth, operators), only how it is distributed
+        set("threadReductionFactor", rng.pick(std::vector<double>{1.0, 0.5, 0.6, 0.3}));
         std::string hs;
         uint64_t h_multi = 0, h1 = 0;
         bool multi_same = true, repeat_ok = true;
@@ -161,7 +162,7 @@ static int mode_solve(int cases)
             char b[40]; snprintf(b, sizeof b, "%d:%016llx,", t, (unsigned long long)h0); hs += b;
         }
         std::string o; for (auto& e : kv) o += "--" + e.first + " " + e.second + " ";
-        printf("PAR op=solve-8-cycles nr=0 nt=0 N=0 repeats_identical=%d threads_ge2_identical=%d one_thread_identical=%d worst_vs_1=%s hashes=%s opts=[%s]\n", (int)repeat_ok, (int)multi_same,
+        printf("PAR op=solve-2-cycles nr=0 nt=0 N=0 repeats_identical=%d threads_ge2_identical=%d one_thread_identical=%d worst_vs_1=%s hashes=%s opts=[%s]\n", (int)repeat_ok, (int)multi_same,
                (int)(h1 == h_multi), hex(worst).c_str(), hs.c_str(), o.c_str());
     }
     printf("end\n");
